@@ -191,15 +191,15 @@ Fixpoint find_xsi (env : list frame) (ats : list attr) (local : str) : option st
               else find_xsi env r local
   end.
 
-(* Element.isnil *)
-Definition is_nil (env : list frame) (ats : list attr) : bool :=
+Definition s_one : str := [49%N].
+
+(* Element.isnil: the lower-cased value is "true" or "1" (`one` = false is the
+   counterfactual in which "1" is not recognised) *)
+Definition is_nil (one : bool) (env : list frame) (ats : list attr) : bool :=
   match find_xsi env ats s_nil with
-  | Some v => str_eqb (lower v) s_true
+  | Some v => str_eqb (lower v) s_true || (one && str_eqb (lower v) s_one)
   | None => false
   end.
-
-Definition uri_is_one (v : option str) : bool :=
-  match v with Some [49%N] => true | _ => false end.
 
 (* AttrList.skip *)
 Definition is_skip_uri (u : str) : bool := existsb (str_eqb u) skip_uris.
@@ -349,10 +349,11 @@ Variable uris : list (str * N).        (* namespace URIs -> nsid *)
 Variable kinds : list (N * N).         (* element / attribute name id -> built-in position *)
 Variable globals : list (qn * qn).     (* global elements: name -> type *)
 (* counterfactual switches, used ONLY to attribute a disagreement with the
-   reference to a known quirk; the model of the code is the instance false/true *)
+   reference to a known quirk or regression; the model of the code is the instance
+   strict_qname = false, do_promote = true, nil_one = true *)
 Variable strict_qname : bool.          (* true: unprefixed QName -> default namespace (not the code) *)
 Variable do_promote : bool.            (* false: skip promotePrefixes (not the code) *)
-Variable nil_one : bool.               (* true: xsi:nil="1" also means nil (not the code) *)
+Variable nil_one : bool.               (* false: xsi:nil="1" is not recognised (not the code) *)
 
 Definition nid (s : str) : N := match sfind s names with Some n => n | None => 0%N end.
 Definition uid (u : option str) : N :=
@@ -486,7 +487,7 @@ Fixpoint decode (env : list frame) (decl : option rtype) (cnil : bool) (e : elem
                else match data with
                     | _ :: _ => DOk (PObj (Some (type_id real)) data)
                     | [] =>
-                        if is_nil env' ats || (nil_one && uri_is_one (find_xsi env' ats s_nil)) then DOk PNone
+                        if is_nil nil_one env' ats then DOk PNone
                         else if ht then DOk (translate real (match txt with Some t => t | None => [] end))
                         else if nokids then DOk (if cnil then PNone else PLeaf tag_str [])
                         else DOk PNone
